@@ -121,6 +121,8 @@ def raw_family_case(rng, fam, violate):
         xy = bit * qc % R
         if violate:
             j = rng.below(5)
+            if j == 4 and (bit == 0 or (ql * qr - qc) % R == 0):
+                j = 1               # `xy = bit*ql*qr` coincides with the honest value: not a violation
             if j == 0: accn = (2 * acc + 2) % R; bit = 2; ya = (4 * (qr - 1) + 1) % R; xa = 2 * ql % R; xy = 2 * qc % R
             elif j == 1: xy = (xy + 1) % R
             elif j == 4: xy = bit * ql % R * qr % R; p.tags.append("xy=bit*ql*qr")
